@@ -18,10 +18,6 @@ Fixpoint spec_table (flag : backend -> bool) (i : nat) (bs : list backend) : tab
         ++ spec_table flag (S i) r
   end.
 
-(* every scheme claimed by a backend whose start-up information could be fetched *)
-Definition live_schemes (bs : list backend) : list scheme :=
-  flat_map (fun b => if b_info_ok b then b_schemes b else []) bs.
-
 (* backend number i offers the provider selected by flag and registered scheme s *)
 Definition owns (flag : backend -> bool) (P : list backend) (i : nat) (s : scheme) : Prop :=
   exists b, nth_error P i = Some b /\ b_info_ok b = true /\ flag b = true /\ In s (b_schemes b).
@@ -296,7 +292,7 @@ Definition trace_ok_case (c : case) : bool := trace_ok_b (c_backends c) (c_op c)
 (* provider / mixer methods a request kind can invoke *)
 Definition op_meths (o : op) : list meth :=
   match o with
-  | OConstruct | OSchemes => []
+  | OConstruct | OSchemes | OCoreSchemes => []
   | OLookup _ => [MLookupMany]
   | OImages _ => [MGetImages]
   | OSearch _ _ _ => [MSearch]
@@ -318,3 +314,54 @@ Definition op_meths (o : op) : list meth :=
 
 Definition is_mixer_meth (m : meth) : bool :=
   match m with XGetVolume | XSetVolume | XGetMute | XSetMute => true | _ => false end.
+
+(* ------------------------------------------------------------------ single-backend requests, create, findings *)
+
+(* the one provider call a single-URI request makes when the scheme has an owner *)
+Definition single_call (o : op) : option (meth * arg) :=
+  match o with
+  | OBrowse (BUri u) => Some (MBrowse, AUri u)
+  | OGetItems u => Some (PGetItems, AUri u)
+  | OPlLookup u => Some (PLookup, AUri u)
+  | OSave (Some u) n => Some (PSave, APlaylist u n)
+  | ODelete u => Some (PDelete, AUri u)
+  | _ => None
+  end.
+
+(* answers of the documented type for that call *)
+Definition single_answer_ok (o : op) (r : resp) : bool :=
+  match o with
+  | OBrowse _ => match as_instances CRef r with Some _ => true | None => false end
+  | OGetItems _ => match r with RNone => true | _ => match as_instances CRef r with Some _ => true | None => false end end
+  | OPlLookup _ | OSave _ _ => match r with RNone | RVal CPlaylist _ => true | _ => false end
+  | ODelete _ => match r with RNone | RBool _ => true | _ => false end
+  | _ => false
+  end.
+
+Definition table_for (flag : backend -> bool) (T : tables) (o : op) : table :=
+  match o with OBrowse _ => t_browse T | _ => t_playlists T end.
+
+(* T5b for the single-URI requests, at full strength: an answer of the wrong type (or an
+   ordinary exception) leaves the caller with the empty value *)
+Definition single_bad_answer_discarded_full : Prop :=
+  forall T P mx o u flag empty b m a,
+    single_uri_op o = Some (u, flag, empty) -> single_call o = Some (m, a) ->
+    bad_uri u = false \/ m = PLookup \/ m = PSave ->
+    tget (table_for flag T o) (u_scheme u) = Some b ->
+    ans P b m a <> RRaise KBase -> (m = PSave -> ans P b m a <> RRaise KAssertion) ->
+    single_answer_ok o (ans P b m a) = false ->
+    snd (run_op T P mx o) = Ok empty.
+
+Definition is_delete (o : op) : bool := match o with ODelete _ => true | _ => false end.
+
+(* get_distinct at full strength: every value was an element of some provider's sequence *)
+Definition distinct_values_listed_full : Prop :=
+  forall T P f q log l e,
+    get_distinct T P f q = (log, Ok (VList l)) -> In e l ->
+    exists b es, ans P b MDistinct (ADistinct (field_compat f) q) = RList es /\ In e es.
+
+Definition no_dict_answer (P : list backend) : Prop :=
+  forall b a it items, ans P b MDistinct a <> RMap (it :: items).
+
+(* what create does with one provider's answer *)
+Definition create_accepts (r : resp) : option Z := match r with RVal CPlaylist id => Some id | _ => None end.
